@@ -63,6 +63,18 @@ class SweepOracle(Oracle):
             return self.b_sto(node)
         return self.rew[id(node)][-1] + self.delta_at(node.get_depth())
 
+    def near(self, a, b):
+        """Equality of two values the statement compares.  SOO compares stored rewards: exact.  DOO (reward + diameter
+        term) and StoSOO (mean + width) compute them: a few dozen ulps of their magnitude, whatever the size of the rewards
+        (a relative 1e-9 would call rewards 1e12+42 and 1e12+80 equal)."""
+        a = float(a)
+        b = float(b)
+        if a == b:
+            return True
+        if self.kind == "SOO" or not (math.isfinite(a) and math.isfinite(b)):
+            return False
+        return abs(a - b) <= 1e-12 + 64 * 2.220446049250313e-16 * max(abs(a), abs(b))
+
     def delta_at(self, h):
         if self.user_delta is not None:
             kind, c, base = self.user_delta
@@ -113,12 +125,12 @@ class SweepOracle(Oracle):
                 else:
                     rivals = [n for n in self.leaves_at(h) if self.evals(n) > 0 or self.kind == "StoSOO"]
                 best = max(self.value(n) for n in rivals)
-                if not (v == best or close(v, best)):
+                if not (v == best or self.near(v, best)):
                     raise Violation("C08.best", "expanded leaf %r (depth %d) has value %r but a rival leaf has %r (round %d)"
                                     % (cell_id(par), h, v, best, t), round=t)
                 if self.kind in ("SOO", "StoSOO"):
                     if self.prev_depth is not None and h > self.prev_depth:
-                        if not (v >= self.prev_val or close(v, self.prev_val)):
+                        if not (v >= self.prev_val or self.near(v, self.prev_val)):
                             raise Violation("C08.monotone", "leaf %r (value %r) expanded after a shallower leaf of value %r in the same sweep (round %d)"
                                             % (cell_id(par), v, self.prev_val, t))
                         st.bump("monotone_comparisons")
@@ -166,7 +178,7 @@ class SweepOracle(Oracle):
                     raise Violation("C08.k", "cell %r is evaluated more than k=%d times (round %d)" % (cell_id(cell), self.k, t))
                 v = self.b_sto(cell)
                 best = max(self.b_sto(n) for n in self.leaves_at(h))
-                if not (v == best or close(v, best)):
+                if not (v == best or self.near(v, best)):
                     raise Violation("C08.handout", "handed-out cell %r has b=%r but a leaf of its depth has b=%r (round %d)"
                                     % (cell_id(cell), v, best, t))
             st.bump("handouts_judged")
